@@ -23,7 +23,9 @@ RULE = ("histories of public mutations on MixedEdgeGraph() and ADMG(), universe 
         "then seeded random walks (incl. clear() and self loops) biased to query-then-add-layer, remove-then-re-add, copy-then-mutate; after every op all "
         "read queries of the touched object and the raw state of every live object are compared with the extracted model; "
         "bulk / subgraph arguments as list, tuple, generator, set, frozenset, dict keys, str; own label families coincide (container == label) and obj (identity-hashed); a decoy graph runs through all methods before every case (cross-call state); held "
-        "iterators as in ASSUMPTIONS; distinct by op list; non-trivial = the final store holds an edge and at least one op was rejected or a second "
+        "iterators as in ASSUMPTIONS; argument spellings (all-keyword calls, 3-tuple edge bunches, EdgeType enum members = unknown "
+        "edge type: raises, graph unchanged); attribute edits through G.nodes[n] / layer.edges[u,v]; update(edges, nodes, edge_type); "
+        "edge ops on an unknown edge type raise BEFORE adding the end nodes (repo 50c2392); distinct by op list; non-trivial = the final store holds an edge and at least one op was rejected or a second "
         "object was allocated")
 EXHAUSTIVE = {"quick": "all histories of length <= 2 over the reduced alphabet, both classes (length 3: seeded sample)",
               "thorough": "all histories of length <= 3 over the reduced alphabet, both classes (length 4: seeded sample)"}
@@ -123,6 +125,14 @@ def gen_cases(tier, rng):
     for i in range(200 if quick else 2000):
         yield {"kind": "attrkeys", "cls": i % 2, "N": 4, "_keys": [rng.choice(NK), rng.choice(EK), rng.choice(GK)],
                "ops": random_history(rng, i % 2, 12)}
+    # argument spellings: every argument by keyword, edge bunches as 3-tuples, EdgeType enum members as edge type
+    for i in range(200 if quick else 2000):
+        c = {"kind": "spelling", "cls": i % 2, "N": 4, "ops": random_history(rng, i % 2, 15, enum=0.25)}
+        if i % 4 < 2:
+            c["_kw"] = 1
+        if i % 4 in (1, 3):
+            c["_t3"] = 1
+        yield c
     n_rand, length = (260, 25) if quick else (260, 200)
     for i in range(n_rand):
         cls = i % 2
@@ -164,6 +174,8 @@ def decode(case, v):
 
 
 # ------------------------------------------------------------------ implementation side
+KW = [0]     # per case: pass every argument by keyword (case["_kw"])
+T3 = [0]     # per case: edge bunches always as 3-tuples (case["_t3"])
 _KEYS = {"n": AK, "e": AK, "g": AK}   # python attribute keys standing for the model's keys 0, 1 (per case: case["_keys"])
 
 
@@ -429,46 +441,60 @@ def _apply(objs, op, lab, N):
     if o >= len(objs) or objs[o] is None:
         return None, None
     G = objs[o]
-    et = lambda t: LNAMES[t] if t < 4 else "all"  # noqa: E731
+    def et(t):
+        """0..3 names, 4 'all'; 10..13 / 14: the EdgeType enum member instead of its string (HEAD: unknown edge type)"""
+        if t < 4:
+            return LNAMES[t]
+        if t == 4:
+            return "all"
+        from pywhy_graphs.config import EdgeType
+        return {10: EdgeType.DIRECTED, 11: EdgeType.BIDIRECTED, 12: EdgeType.UNDIRECTED, 13: EdgeType.CIRCLE}.get(t, EdgeType.ALL)
+
+    def call(meth, names, vals, **attr):
+        """positional, or (case["_kw"]) every argument by keyword under its documented parameter name"""
+        f = getattr(G, meth)
+        return f(**dict(zip(names, vals)), **attr) if KW[0] else f(*vals, **attr)
     try:
         if code == 0:
             if exotic and a[1]:      # keys that cannot be keyword arguments go through the (node, dict) form
                 G.add_nodes_from([(lab(a[0]), _adict(a[1], "n"))])
             else:
-                G.add_node(lab(a[0]), **_adict(a[1], "n"))
+                call("add_node", ["node_for_adding"], [lab(a[0])], **_adict(a[1], "n"))
         elif code == 1:
             if exotic and a[1]:
                 arg, base, snap = _bulk("nd", [(lab(n), _adict(a[1], "n")) for n in a[0]], a[2] if len(a) > 2 else 0)
-                G.add_nodes_from(arg)
+                call("add_nodes_from", ["nodes_for_adding"], [arg])
             else:
                 arg, base, snap = _bulk("n", [lab(n) for n in a[0]], a[2] if len(a) > 2 else 0)
-                G.add_nodes_from(arg, **_adict(a[1], "n"))
+                call("add_nodes_from", ["nodes_for_adding"], [arg], **_adict(a[1], "n"))
         elif code == 2:
             if exotic and a[3]:      # e.g. the attribute key "edge_type": only expressible through an edge triple
                 G.add_edges_from([(lab(a[0]), lab(a[1]), _adict(a[3], "e"))], et(a[2]))
             else:
-                G.add_edge(lab(a[0]), lab(a[1]), et(a[2]), **_adict(a[3], "e"))
+                call("add_edge", ["u_of_edge", "v_of_edge", "edge_type"], [lab(a[0]), lab(a[1]), et(a[2])], **_adict(a[3], "e"))
         elif code == 3:
-            eb = [((lab(u), lab(v), _adict(d, "e")) if d else (lab(u), lab(v))) for u, v, d in a[0]]
+            eb = [((lab(u), lab(v), _adict(d, "e")) if (d or T3[0]) else (lab(u), lab(v))) for u, v, d in a[0]]
             arg, base, snap = _bulk("e3", eb, a[2] if len(a) > 2 else 0)
-            G.add_edges_from(arg, et(a[1]))
+            call("add_edges_from", ["ebunch_to_add", "edge_type"], [arg, et(a[1])])
         elif code == 4:
-            G.remove_node(lab(a[0]))
+            call("remove_node", ["n"], [lab(a[0])])
         elif code == 5:
             arg, base, snap = _bulk("n", [lab(n) for n in a[0]], a[1] if len(a) > 1 else 0)
-            G.remove_nodes_from(arg)
+            call("remove_nodes_from", ["nodes"], [arg])
         elif code == 6:
-            G.remove_edge(lab(a[0]), lab(a[1]), et(a[2]))
+            call("remove_edge", ["u", "v", "edge_type"], [lab(a[0]), lab(a[1]), et(a[2])])
         elif code == 7:
-            arg, base, snap = _bulk("e2", [(lab(u), lab(v)) for u, v in a[0]], a[2] if len(a) > 2 else 0)
-            G.remove_edges_from(arg, et(a[1]))
+            # "3-tuples (u, v, k) where k is ignored"
+            arg, base, snap = _bulk("e2", [((lab(u), lab(v), "k") if T3[0] else (lab(u), lab(v))) for u, v in a[0]],
+                                    a[2] if len(a) > 2 else 0)
+            call("remove_edges_from", ["ebunch", "edge_type"], [arg, et(a[1])])
         elif code == 8:
-            G.clear_edges(et(a[0]))
+            call("clear_edges", ["edge_type"], [et(a[0])])
         elif code == 9:
             mk = nx.DiGraph if a[1] else nx.Graph
-            G.add_edge_type(mk([(lab(u), lab(v)) for u, v in a[2]]), LNAMES[a[0]])
+            call("add_edge_type", ["graph", "edge_type"], [mk([(lab(u), lab(v)) for u, v in a[2]]), LNAMES[a[0]]])
         elif code == 10:
-            G.remove_edge_type(LNAMES[a[0]])
+            call("remove_edge_type", ["edge_type"], [LNAMES[a[0]]])
         elif code == 11:
             G.graph.update(_adict(a[0], "g"))
         elif code == 12:
@@ -476,6 +502,17 @@ def _apply(objs, op, lab, N):
             objs[-1] = G.copy()
         elif code == 14:
             G.clear()
+        elif code == 15:
+            # attributes first given through add_node / add_nodes_from, later edited through the node view
+            if lab(a[0]) in G:
+                G.nodes[lab(a[0])].update(_adict(a[1], "n"))
+        elif code == 16:
+            nm = LNAMES[a[2]]
+            if nm in G.edge_types and G.has_edge(lab(a[0]), lab(a[1]), nm):
+                G.get_graphs(nm).edges[lab(a[0]), lab(a[1])].update(_adict(a[3], "e"))
+        elif code == 17:
+            eb = [((lab(u), lab(v), _adict(d, "e")) if (d or T3[0]) else (lab(u), lab(v))) for u, v, d in a[1]]
+            G.update(edges=eb, nodes=[lab(n) for n in a[0]], edge_type=et(a[2]))
         else:
             objs.append(None)
             ns, base, snap = _bulk("n", [lab(n) for n in a[0] if lab(n) in G], a[1] if len(a) > 1 else 0)
@@ -513,6 +550,8 @@ def run_impl(case):
     N = case["N"]
     ks = case.get("_keys")
     _KEYS.update({"n": AK, "e": AK, "g": AK} if not ks else {"n": ks[0], "e": ks[1], "g": ks[2]})
+    KW[0] = 1 if case.get("_kw") else 0
+    T3[0] = 1 if case.get("_t3") else 0
     _decoy()
     if case.get("init"):
         import networkx as nx
@@ -582,7 +621,8 @@ def first_diff(case, impl, model):
 
 
 OPNAMES = ["add_node", "add_nodes_from", "add_edge", "add_edges_from", "remove_node", "remove_nodes_from", "remove_edge",
-           "remove_edges_from", "clear_edges", "add_edge_type", "remove_edge_type", "graph.update", "copy", "subgraph", "clear"]
+           "remove_edges_from", "clear_edges", "add_edge_type", "remove_edge_type", "graph.update", "copy", "subgraph", "clear",
+           "nodes[n].update", "layer.edges[u,v].update", "update"]
 
 
 def compare(case, impl, model):
@@ -649,8 +689,12 @@ def shrink(case):
 
 def _nodes_of(o):
     c, a = o[0], o[2:]
-    if c in (0, 4):
+    if c in (0, 4, 15):
         return [a[0]]
+    if c == 16:
+        return [a[0], a[1]]
+    if c == 17:
+        return list(a[0]) + [x for e in a[1] for x in e[:2]]
     if c in (1, 5, 13):
         return list(a[0])
     if c in (2, 6):
